@@ -169,6 +169,11 @@ BATTERY = [
     ("r+", -1, [("readline", 10), ("truncate", 12), ("read", 5), ("tell",)]),
     ("r+", 8192, [("read", 10), ("truncate", 12), ("read", 5)]),
     ("w+", 64, [("write", b"ABCDEF"), ("truncate", 2), ("seek", 0, 0), ("read", 10)]),
+    # a file opened for appending writes at the end of the file as it is now, also after its size was changed
+    ("a", 0, [("truncate", 10), ("write", b"abc"), ("tell",), ("truncate", 5000), ("write", b"zz"), ("tell",)]),
+    ("a+", 64, [("truncate", 10), ("write", b"abc"), ("flush",), ("tell",), ("seek", 0, 0), ("read", 20)]),
+    # cutting the file below the current position with data read ahead: nothing stale is served afterwards
+    ("r+", 8192, [("readline", None), ("read", 40), ("tell",), ("truncate", 0), ("tell",), ("read", 30)]),
     # plain sequential use
     ("r", -1, [("read", 100), ("readline", None), ("tell",), ("seek", 2999, 0), ("read", 10), ("read", 10)]),
     ("w", -1, [("write", b"abc"), ("write", b"def"), ("tell",), ("seek", 1, 0), ("write", b"Z"), ("tell",)]),
